@@ -4,6 +4,7 @@ package mux
 
 import (
 	zzv "github.com/issue9/mux/v9/internal/zzverif"
+	"github.com/issue9/mux/v9/types"
 )
 
 // ---- C06: WithLock(true) makes concurrent registration, removal and serving safe ----
@@ -34,9 +35,14 @@ func ZZC06(n int) {
 	if n/100%10 == 1 {
 		wr2 = (wr + 1) % 4
 	}
+	if n >= 10000 { // explicit pair of writers: n = 10000 + w1*1000 + w2*100 ... encoded below
+		wr, wr2, rd = n/1000%10, n/100%10, n%10
+	}
 	cleans := wr == 4 || wr2 == 4
-	// writers 2 (Remove), 3 (toggle) and 4 (Clean) change what GET /g may answer
-	touchesGet := func(k int) bool { return k == 2 || k == 3 || k == 4 }
+	// writers 2 (Remove), 3 (toggle), 4 (Clean), 6 (Remove GET) and 7 (Remove + Handle POST) change what GET /g may answer
+	touchesGet := func(k int) bool { return k == 2 || k == 3 || k == 4 || k == 6 || k == 7 }
+	common := make([]types.Middleware[*hnd], 0, 4)
+	common = append(common, zzMW("C"))
 
 	writer := func(k int) func() {
 		return func() {
@@ -54,6 +60,15 @@ func ZZC06(n int) {
 				r.Clean()
 			case 5: // a registration that is rejected as ambiguous walks the tree as well
 				zzGuard(func() { r.Handle("/t/{y}/k", &hnd{id: 13}, nil, "GET") })
+			case 6:
+				r.Remove("/g", "GET")
+			case 7:
+				r.Remove("/g")
+				r.Handle("/g", &hnd{id: 14}, nil, "POST")
+			case 8: // two goroutines register through their own Prefix, passing the same caller-owned slice
+				r.Prefix("/p8", zzMW("P8")).Handle("/x", &hnd{id: 15}, common, "GET")
+			case 9:
+				r.Prefix("/p9", zzMW("P9")).Handle("/x", &hnd{id: 16}, common, "GET")
 			}
 		}
 	}
@@ -79,7 +94,9 @@ func ZZC06(n int) {
 			o2 = zzServePriv(r, "GET", "/t/au")
 		}
 	}
-	if wr2 >= 0 {
+	if wr2 >= 0 && rd == 9 {
+		zzv.Par(writer(wr), writer(wr2)) // two writers only: the final table is what is checked
+	} else if wr2 >= 0 {
 		zzv.Par(writer(wr), writer(wr2), reader)
 	} else {
 		zzv.Par(writer(wr), reader)
@@ -95,7 +112,7 @@ func ZZC06(n int) {
 			zzv.Assert(out.o.id == 3, "toggled-route:GET-disturbed-by-an-unrelated-write")
 		}
 	case 5:
-		ok := out.o.id == 11 || out.o.id == id404 || out.o.id == id405
+		ok := out.o.id == 11 || out.o.id == 14 || out.o.id == id404 || out.o.id == id405
 		zzv.Assert(ok, "toggled-route:POST-foreign-or-nil-handler")
 	case 1:
 		if !cleans {
@@ -120,4 +137,136 @@ func ZZC06(n int) {
 	if o2 != nil && !cleans {
 		zzv.Assert(o2.id == 1, "untouched-route:second-request-not-served-by-its-own-handler")
 	}
+
+	// the final table is the result of the writers' operations in SOME order (each operation atomic)
+	zzv.Assert(zzC06Final(r, wr, wr2), "final-table-is-not-the-result-of-any-serial-order-of-the-writes")
+	if wr == 8 && wr2 == 9 {
+		o8 := zzServePriv2(r, "GET", "/p8/x")
+		o9 := zzServePriv2(r, "GET", "/p9/x")
+		zzv.Assert(o8.id == 15 && len(o8.chain) == 2 && o8.chain[0][:2] == "P8" && o9.id == 16 && len(o9.chain) == 2 && o9.chain[0][:2] == "P9", "concurrent-registrations-got-each-other's-middlewares")
+	}
+}
+
+func zzServePriv2(r *Router[*hnd], method, path string) *zzObs {
+	o, _ := zzServe(r, zzReq(method, path))
+	return o
+}
+
+// zzC06Model applies writer k's operations to a model of the method set of /g (+ presence of the other routes).
+type zzC06State struct {
+	g     []string // methods of /g
+	ab    bool     // /t/ab registered
+	clean bool
+	p8    bool
+	p9    bool
+}
+
+func (s zzC06State) step(k, part int) (zzC06State, bool) {
+	rm := func(l []string, x string) []string {
+		var out []string
+		for _, y := range l {
+			if y != x {
+				out = append(out, y)
+			}
+		}
+		return out
+	}
+	switch k {
+	case 0:
+		s.ab = true
+	case 1:
+		if !zzContains(s.g, "POST") {
+			s.g = append(append([]string{}, s.g...), "POST")
+		}
+	case 2:
+		s.g = nil
+	case 3:
+		if part == 0 {
+			s.g = rm(s.g, "GET")
+			return s, true // a second operation follows
+		}
+		if !zzContains(s.g, "GET") {
+			s.g = append(append([]string{}, s.g...), "GET")
+		}
+	case 4:
+		s = zzC06State{clean: true}
+	case 6:
+		s.g = rm(s.g, "GET")
+	case 7:
+		if part == 0 {
+			s.g = nil
+			return s, true
+		}
+		if !zzContains(s.g, "POST") {
+			s.g = append(append([]string{}, s.g...), "POST")
+		}
+	case 8:
+		s.p8 = true
+	case 9:
+		s.p9 = true
+	}
+	return s, false
+}
+
+// zzC06Final: does the router's final Routes() equal the model's result for some interleaving of
+// the writers' operations (operations atomic, program order kept)?
+func zzC06Final(r *Router[*hnd], w1, w2 int) bool {
+	rs := r.Routes()
+	matches := func(s zzC06State) bool {
+		want := 1
+		if !s.clean {
+			want += 2 // /t/au, /t/{x}/k
+		}
+		if len(s.g) > 0 {
+			want++
+			if zzJoin(rs["/g"]) != zzJoin(zzAllowSet(s.g, false)) {
+				return false
+			}
+		} else if _, has := rs["/g"]; has {
+			return false
+		}
+		for _, x := range []struct {
+			on bool
+			p  string
+		}{{s.ab, "/t/ab"}, {s.p8, "/p8/x"}, {s.p9, "/p9/x"}} {
+			_, has := rs[x.p]
+			if has != x.on {
+				return false
+			}
+			if x.on {
+				want++
+			}
+		}
+		return len(rs) == want
+	}
+	// enumerate interleavings of two operation sequences of length <= 2
+	var rec func(s zzC06State, i1, i2 int) bool
+	nops := func(k int) int {
+		if k == 3 || k == 7 {
+			return 2
+		}
+		if k < 0 {
+			return 0
+		}
+		return 1
+	}
+	rec = func(s zzC06State, i1, i2 int) bool {
+		if i1 == nops(w1) && i2 == nops(w2) {
+			return matches(s)
+		}
+		if i1 < nops(w1) {
+			n, _ := s.step(w1, i1)
+			if rec(n, i1+1, i2) {
+				return true
+			}
+		}
+		if i2 < nops(w2) {
+			n, _ := s.step(w2, i2)
+			if rec(n, i1, i2+1) {
+				return true
+			}
+		}
+		return false
+	}
+	return rec(zzC06State{g: []string{"GET"}}, 0, 0)
 }
